@@ -65,6 +65,7 @@ def run(rep, tier):
                             'inherited start (rule or class)'),
         ('CONV-hashable', 'entry closures are hashable'),
         ('DRIVER-exits', 'success -> _finalize_parse_info(...); failure -> error function called, raise'),
+        ('DRIVER-memo-per-call', 'the memo is a fresh local dictionary of each driver call'),
         ('DRIVER-coordinates', 'the driver never rebinds the text / position / start it was given while rule functions run'),
         ('FINALIZE-exits', 'PartialParseError(nodes, position at pos, excerpt) iff fullparse and pos < len(text); '
                            'otherwise the same value is returned'),
@@ -97,8 +98,10 @@ def run(rep, tier):
                 cc = x.comparators[0].value
         roles, tbad, st = trampoline.analyse(fn, cc, uses_ctx, what)
         for rule, msg in tbad:
-            if rule == 'DRIVER-coordinates':
-                rep.add(Finding(rule, f'{rel}:runtime', '', msg, f'{rel} ({what})'))
+            if rule in ('DRIVER-coordinates', 'C07-memo-local'):
+                # a memo that outlives the call makes the outcome depend on earlier parses
+                rep.add(Finding('DRIVER-memo-per-call' if rule == 'C07-memo-local' else rule,
+                                f'{rel}:runtime', '', msg, f'{rel} ({what})'))
         n += finalize.driver_exits(fn, roles, uses_ctx, what, bad)
         n += finalize.finalize_rules(fns, what, bad)
         n += finalize.bytes_safety(fns, what, bad)
